@@ -138,7 +138,8 @@ class EpisodeMonitor:
             removed = [k for k in before[0] if k not in d[0]]
             if len(removed) == 1:
                 fwtxt = s["line"].split("|")[5].split(" ")[5]
-                fw = None if fwtxt == "-" else float(fwtxt)
+                import struct
+                fw = None if fwtxt == "-" else struct.unpack("<d", struct.pack("<Q", int(fwtxt)))[0]     # the spec carries the f64's bits
                 def score(idx, k):
                     hits = before[0][k][3]
                     if s["policy"] == "lfu":
@@ -156,7 +157,7 @@ class EpisodeMonitor:
                 self.ev("c08-l2-victim-checked")
                 # decisive only: the evicted entry's score is clearly above the minimum (no verdict on ties / near ties)
                 if vict[0] != float("inf") and best[0] != float("inf") and vict[0] > best[0] * (1 + 1e-9) + 1e-12:
-                    msg = (f"{op}: async {s['policy']} cache (limit {s['limit']}, frequency_weight {fwtxt}) evicted {removed[0][:20]} with documented score "
+                    msg = (f"{op}: async {s['policy']} cache (limit {s['limit']}, frequency_weight {fw}) evicted {removed[0][:20]} with documented score "
                            f"{vict[0]:.6g} although {best[2][:20]} scores {best[0]:.6g}")
                     self.fail("C08", msg)
                     self.fail("C19", msg + " — the attribute values do not govern the eviction as written")
